@@ -215,3 +215,301 @@ Proof.
   assert (o = i) as -> by (rewrite Hrid, A in Ho; lia).
   apply (reg_in_times_le r d); [done|]. apply (Ht k d). by apply own_entries_in.
 Qed.
+
+(* ---------- the cluster invariant for runs with restarts ---------- *)
+Lemma Cover_mono log ext : Cover log → ∀ r, log_reg log r →
+  ∃ o k d, In (o, k, d) (log ++ ext) ∧ N.of_nat (S o) = st_rid (lw_ts r) ∧ reg_in r d.
+Proof.
+  intros Hc r Hr. destruct (Hc r Hr) as (o & k & d & Hin & Ho & Hd).
+  exists o, k, d. split; [apply in_or_app; by left|done].
+Qed.
+
+(* a client command keeps Cover: the fresh registers of the emitted delta carry the writer's id *)
+Lemma cstep_client_cover c log j cmd :
+  GInv c log → Cover log →
+  (∀ n1, (cstep c log (CClient j cmd)).1 !! j = Some n1 → sh_ovf (n_sh n1) = false) →
+  Cover (cstep c log (CClient j cmd)).2.
+Proof.
+  intros (G1 & G2 & G3) Hcov Hno. cbn [cstep] in *.
+  destruct (c !! j) as [n|] eqn:Hj; [|done].
+  destruct (G2 j n Hj) as (A & B & C & D & E & F & G & H).
+  unfold node_exec in *. destruct (xexec (n_x n) cmd) as [x1 r1].
+  destruct (record_post x1 cmd r1) as [e|] eqn:Hrec; [|done].
+  pose proof (record_post_local _ _ _ _ Hrec) as Hloc.
+  destruct (step (n_sh n) e) as [s1 od1] eqn:Hstep. destruct od1 as [d|]; cbn [fst snd] in *; [|done].
+  set (k := ev_key e) in *.
+  assert (Ho : sh_ovf s1 = false).
+  { specialize (Hno (Node x1 s1 (hist_push (n_hist n) k d) (n_glue_fail n))).
+    rewrite list_lookup_insert in Hno by (by eapply lookup_lt_Some). by apply Hno. }
+  assert (Hvfun : ∀ v, sh_keys (n_sh n) !! k = Some v → val_fun v).
+  { intros v Hv. unfold val_fun. destruct (rv_crdt v) as [| | | | |h] eqn:Hc; try done.
+    intros f f' r r' Hr Hr' Ets. apply G1; auto; apply (G k v); auto; unfold reg_in; rewrite Hc; eauto. }
+  destruct (step_local_regs _ _ _ _ C Hloc Hstep Ho Hvfun) as (_ & _ & _ & Hprov).
+  intros r (o & k' & d' & Hin & Hr). apply in_app_or in Hin as [Hin|[Hin|[]]].
+  - apply (Cover_mono log); [done|]. exists o, k', d'. done.
+  - injection Hin as <- <- <-. destruct (Hprov r Hr) as [(v & Hv & Hrv)|(Hfr & _)].
+    + apply (Cover_mono log); [done|]. by apply (G k v).
+    + exists j, k, d. split; [apply in_or_app; right; by left|]. split; [congruence|done].
+Qed.
+
+Lemma restarted_serve K log i :
+  (∀ o k d, In (o, k, d) log → val_ok K k d) →
+  SInv K (restarted i log) ∧ n_glue_fail (restarted i log) = false.
+Proof.
+  intros Hl. unfold restarted.
+  assert (H : ∀ l n, (∀ k d, In (k, d) l → val_ok K k d) → SInv K n → n_glue_fail n = false →
+              SInv K (deliver_all n l) ∧ n_glue_fail (deliver_all n l) = false).
+  { induction l as [|[k d] l IH]; intros n Hv HS Hg; simpl; [done|].
+    destruct (node_deliver_serve K n k d HS (Hv k d (or_introl eq_refl))) as [HS1 Hg1].
+    apply IH; [intros k' d' Hin'; apply Hv; by right|done|congruence]. }
+  apply H; [|apply SInv_init|done].
+  intros k d Hin. apply (Hl i). by apply own_entries_in.
+Qed.
+
+Definition RInv (K : list N → N) (c : list node) (log : logt) : Prop :=
+  GInv c log ∧ Cover log ∧ CInv K c log.
+
+Definition rev_ok (K : list N → N) (log : logt) (e : rcev) : Prop :=
+  match e with
+  | RStep (CClient _ cmd) => cmd_ok K cmd
+  | RStep (CDeliver _ k d) => ∃ o, In (o, k, d) log
+  | RRestart _ => True
+  end.
+
+Lemma rstep_rinv K c log e :
+  RInv K c log → rev_ok K log e → no_ovf (rstep c log e).1 →
+  RInv K (rstep c log e).1 (rstep c log e).2.
+Proof.
+  intros (HG & Hcov & HC) He Hno. destruct e as [[j cmd|j k d]|i]; cbn [rstep rev_ok] in *.
+  - split_and!.
+    + apply cstep_client_ginv; [done|]. intros n1 Hn1. by apply (Hno j).
+    + apply cstep_client_cover; [done|done|]. intros n1 Hn1. by apply (Hno j).
+    + by apply cstep_cinv.
+  - destruct He as [o Ho]. split_and!.
+    + apply (cstep_deliver_ginv c log j k d o); [done|done|]. intros n1 Hn1. by apply (Hno j).
+    + cbn [cstep]. by destruct (c !! j).
+    + apply cstep_cinv; [done|]. by exists o.
+  - fold (rstep c log (RRestart i)) in *.
+    destruct (c !! i) as [n0|] eqn:Hi.
+    2:{ rewrite (rstep_restart_none _ _ _ Hi). by split_and!. }
+    rewrite (rstep_restart _ _ _ _ Hi) in *. cbn [fst snd] in *.
+    destruct HG as (G1 & G2 & G3). destruct HC as [Hn Hl].
+    assert (Hlt : (i < length c)%nat) by (by eapply lookup_lt_Some).
+    assert (Hov : sh_ovf (n_sh (restarted i log)) = false).
+    { apply (Hno i). by apply list_lookup_insert. }
+    split_and!; try done.
+    + split_and!; try done.
+      intros i' n' Hi'. destruct (decide (i' = i)) as [->|Hne].
+      * rewrite list_lookup_insert in Hi' by done. injection Hi' as <-. by apply restarted_good.
+      * rewrite list_lookup_insert_ne in Hi' by done. by apply G2.
+    + split; [|done].
+      intros i' n' Hi'. destruct (decide (i' = i)) as [->|Hne].
+      * rewrite list_lookup_insert in Hi' by done. injection Hi' as <-. by apply restarted_serve.
+      * rewrite list_lookup_insert_ne in Hi' by done. by apply (Hn i').
+Qed.
+
+(* ---------- runs ---------- *)
+Fixpoint valid_rrun (K : list N → N) (c : list node) (log : logt) (evs : list rcev) : Prop :=
+  match evs with
+  | [] => True
+  | e :: r => rev_ok K log e ∧ valid_rrun K (rstep c log e).1 (rstep c log e).2 r
+  end.
+
+(* no clock overflowed at any step of the run *)
+Fixpoint rrun_no_ovf (c : list node) (log : logt) (evs : list rcev) : Prop :=
+  match evs with
+  | [] => True
+  | e :: r => no_ovf (rstep c log e).1 ∧ rrun_no_ovf (rstep c log e).1 (rstep c log e).2 r
+  end.
+
+Lemma rrun_rinv K evs : ∀ c log,
+  RInv K c log → valid_rrun K c log evs → rrun_no_ovf c log evs →
+  RInv K (rrun c log evs).1 (rrun c log evs).2.
+Proof.
+  induction evs as [|e evs IH]; intros c log HI Hv Hno; simpl in *; [done|].
+  destruct Hv as [He Hv]. destruct Hno as [Hn1 Hno].
+  pose proof (rstep_rinv K c log e HI He Hn1) as H1.
+  destruct (rstep c log e) as [c1 l1]. cbn [fst snd] in *. by apply IH.
+Qed.
+
+Lemma Cover_nil : Cover [].
+Proof. intros r (o & k & d & [] & _). Qed.
+
+Lemma RInv_init K n : RInv K (cluster_init n) [].
+Proof. split_and!; [apply GInv_init|apply Cover_nil|apply CInv_init]. Qed.
+
+(* ---------- state = fold of the incorporated deltas, along runs with restarts ---------- *)
+Lemma deliver_all_le l : ∀ n, node_le n (deliver_all n l).
+Proof.
+  induction l as [|[k d] l IH]; intros n; simpl; [apply node_le_refl|].
+  eapply node_le_trans; [apply node_deliver_le|apply IH].
+Qed.
+
+Lemma deliver_all_nodeinv U K l : ∀ n,
+  NodeInv n → hist_good U K (deliver_all n l) → sh_ovf (n_sh (deliver_all n l)) = false →
+  NodeInv (deliver_all n l).
+Proof.
+  induction l as [|[k d] l IH]; intros n Hn Hg Ho; simpl in *; [done|].
+  destruct (node_le_good U K _ _ (deliver_all_le l (node_deliver n k d)) Hg Ho) as [Hg1 Ho1].
+  apply IH; [|done|done]. by apply (node_deliver_inv U K).
+Qed.
+
+Section restart_nodes.
+  Context (U : stamp → option lww) (K : list N → N).
+  Hypothesis HK : ∀ k, K k = 0 ∨ K k = 5.
+
+  Lemma hist_good_of_log (log : logt) i n :
+    node_good log i n → (∀ o k d, In (o, k, d) log → good U K k d) → hist_good U K n.
+  Proof.
+    intros (_ & _ & _ & _ & _ & F & _) Hl k. apply Forall_forall. intros d Hd.
+    apply elem_of_list_In in Hd. destruct (F k d Hd) as [o Ho]. by apply (Hl o).
+  Qed.
+
+  Lemma rstep_nodeinv c log e :
+    (∀ i n, c !! i = Some n → NodeInv n) →
+    GInv (rstep c log e).1 (rstep c log e).2 →
+    (∀ o k d, In (o, k, d) (rstep c log e).2 → good U K k d) →
+    no_ovf (rstep c log e).1 →
+    ∀ i n, (rstep c log e).1 !! i = Some n → NodeInv n.
+  Proof.
+    intros H0 (_ & G2 & _) Hgood Hno i n1 Hi1.
+    pose proof (hist_good_of_log _ i n1 (G2 i n1 Hi1) Hgood) as Hg1.
+    pose proof (Hno i n1 Hi1) as Ho1.
+    destruct e as [[j cmd|j k d]|j]; cbn [rstep cstep] in *.
+    - destruct (c !! j) as [n|] eqn:Hj; [|by apply (H0 i)].
+      destruct (node_exec n cmd) as [[n' r] od] eqn:Hx. cbn [fst snd] in *.
+      destruct (decide (i = j)) as [->|Hne].
+      + rewrite list_lookup_insert in Hi1 by (by eapply lookup_lt_Some). injection Hi1 as <-.
+        eapply (node_exec_inv U K HK); eauto.
+      + rewrite list_lookup_insert_ne in Hi1 by done. by apply (H0 i).
+    - destruct (c !! j) as [n|] eqn:Hj; [|by apply (H0 i)]. cbn [fst snd] in *.
+      destruct (decide (i = j)) as [->|Hne].
+      + rewrite list_lookup_insert in Hi1 by (by eapply lookup_lt_Some). injection Hi1 as <-.
+        apply (node_deliver_inv U K); eauto.
+      + rewrite list_lookup_insert_ne in Hi1 by done. by apply (H0 i).
+    - fold (rstep c log (RRestart j)) in *.
+      destruct (c !! j) as [n0|] eqn:Hj.
+      2:{ rewrite (rstep_restart_none _ _ _ Hj) in *. by apply (H0 i). }
+      rewrite (rstep_restart _ _ _ _ Hj) in *. cbn [fst snd] in *.
+      destruct (decide (i = j)) as [->|Hne].
+      + rewrite list_lookup_insert in Hi1 by (by eapply lookup_lt_Some). injection Hi1 as <-.
+        apply (deliver_all_nodeinv U K); [apply NodeInv_init|done|done].
+      + rewrite list_lookup_insert_ne in Hi1 by done. by apply (H0 i).
+  Qed.
+
+  Lemma rrun_nodeinv evs : ∀ c log,
+    RInv K c log → (∀ i n, c !! i = Some n → NodeInv n) →
+    valid_rrun K c log evs → rrun_no_ovf c log evs →
+    (∀ o k d, In (o, k, d) (rrun c log evs).2 → good U K k d) →
+    ∀ i n, (rrun c log evs).1 !! i = Some n → NodeInv n.
+  Proof.
+    induction evs as [|e evs IH]; intros c log HI H0 Hv Hno Hgood; simpl in *; [done|].
+    destruct Hv as [He Hv]. destruct Hno as [Hn1 Hno].
+    pose proof (rstep_rinv K c log e HI He Hn1) as HI1.
+    pose proof (rstep_nodeinv c log e H0 (proj1 HI1)) as Hstep.
+    destruct (rstep c log e) as [c1 l1] eqn:Hs. cbn [fst snd] in *.
+    apply (IH c1 l1); try done.
+    apply Hstep; [|done].
+    intros o k d Hin. apply (Hgood o).
+    destruct (rrun_log_mono evs c1 l1) as [ext ->]. apply in_or_app. by left.
+  Qed.
+End restart_nodes.
+
+(* Closed-system strong eventual consistency, with crashes and restarts. *)
+Theorem sec_closed_restart_lemma (K : list N → N) :
+  (∀ k, K k = 0 ∨ K k = 5) →
+  ∀ n evs i j ni nj k,
+  valid_rrun K (cluster_init n) [] evs → rrun_no_ovf (cluster_init n) [] evs →
+  let c := (rrun (cluster_init n) [] evs).1 in
+  c !! i = Some ni → c !! j = Some nj →
+  same_set (hist_of ni k) (hist_of nj k) →
+  sh_keys (n_sh ni) !! k = sh_keys (n_sh nj) !! k.
+Proof.
+  intros HK n evs i j ni nj k Hv Hno c Hi Hj Hs.
+  pose proof (rrun_rinv K evs _ _ (RInv_init K n) Hv Hno) as ((G1 & G2 & G3) & _ & [_ Hlogk]).
+  set (lf := (rrun (cluster_init n) [] evs).2) in *.
+  assert (Hgood : ∀ o k0 d, In (o, k0, d) lf → good (U_of lf) K k0 d).
+  { intros o k0 d Ho. destruct (G3 o k0 d Ho) as [Hwf Hpl]. pose proof (Hlogk o k0 d Ho) as Hvk.
+    split; [|done]. split_and!; [| |done].
+    - destruct Hvk as [(HK0 & r & Hr0 & _)|(HK5 & h & Hh & _)]; [by rewrite Hr0, HK0|by rewrite Hh, HK5].
+    - unfold crdt_respects. destruct Hvk as [(_ & r & Hr0 & _)|(_ & h & Hh & _)].
+      + rewrite Hr0. apply U_of_spec; [done|]. exists o, k0, d. split; [done|]. unfold reg_in. by rewrite Hr0.
+      + rewrite Hh. intros f r Hf. simpl. apply U_of_spec; [done|]. exists o, k0, d. split; [done|].
+        unfold reg_in. rewrite Hh. eauto. }
+  pose proof (rrun_nodeinv (U_of lf) K HK evs _ _ (RInv_init K n) (cluster_init_inv n) Hv Hno Hgood) as Hinv.
+  destruct (Hinv i ni Hi) as (_ & _ & _ & Si). destruct (Hinv j nj Hj) as (_ & _ & _ & Sj).
+  rewrite Si, Sj.
+  apply (fold_merge_same_set (U_of lf) (K k) (HK k)); [| |exact Hs].
+  - apply good_forall_class. apply (hist_good_of_log (U_of lf) K lf i ni (G2 i ni Hi) Hgood).
+  - apply good_forall_class. apply (hist_good_of_log (U_of lf) K lf j nj (G2 j nj Hj) Hgood).
+Qed.
+
+(* stamps stay unique across crashes and restarts *)
+Theorem unique_stamps_restart_lemma (K : list N → N) n evs :
+  valid_rrun K (cluster_init n) [] evs → rrun_no_ovf (cluster_init n) [] evs →
+  let log := (rrun (cluster_init n) [] evs).2 in
+  ∀ r r', log_reg log r → log_reg log r' → lw_ts r = lw_ts r' → r = r'.
+Proof.
+  intros Hv Hno. exact (proj1 (proj1 (rrun_rinv K evs _ _ (RInv_init K n) Hv Hno))).
+Qed.
+
+(* a restarted node's clock is past every stamp it ever issued (so it never re-issues one) *)
+Theorem restart_clock_lemma (K : list N → N) n evs i ni :
+  valid_rrun K (cluster_init n) [] evs → rrun_no_ovf (cluster_init n) [] evs →
+  (rrun (cluster_init n) [] evs).1 !! i = Some ni →
+  ∀ r, log_reg (rrun (cluster_init n) [] evs).2 r → st_rid (lw_ts r) = N.of_nat (S i) →
+  st_time (lw_ts r) ≤ sh_time (n_sh ni).
+Proof.
+  intros Hv Hno Hi r Hr Hrid.
+  pose proof (rrun_rinv K evs _ _ (RInv_init K n) Hv Hno) as ((_ & G2 & _) & _ & _).
+  destruct (G2 i ni Hi) as (A & _ & _ & _ & _ & _ & _ & H). apply H; [done|congruence].
+Qed.
+
+(* what a node serves is what its replication state says, also after restarts *)
+Theorem serve_eq_state_restart_lemma (K : list N → N) n evs :
+  valid_rrun K (cluster_init n) [] evs → rrun_no_ovf (cluster_init n) [] evs →
+  let c := (rrun (cluster_init n) [] evs).1 in
+  ∀ i ni, c !! i = Some ni → (∀ k, serve ni k = state_says ni k) ∧ n_glue_fail ni = false.
+Proof.
+  intros Hv Hno c i ni Hi.
+  pose proof (rrun_rinv K evs _ _ (RInv_init K n) Hv Hno) as (_ & _ & [Hn _]).
+  destruct (Hn i ni Hi) as [HS Hg]. split; [|done].
+  intros k. apply serve_of_mat. apply HS.
+Qed.
+
+(* ---------- boolean form of the no-overflow hypothesis, for concrete runs ---------- *)
+Definition no_ovf_b (c : list node) : bool := forallb (λ n, negb (sh_ovf (n_sh n))) c.
+Lemma no_ovf_b_spec c : no_ovf_b c = true → no_ovf c.
+Proof.
+  unfold no_ovf_b, no_ovf. intros H i n Hi. rewrite forallb_forall in H.
+  specialize (H n). apply negb_true_iff. apply H. apply elem_of_list_In. by eapply elem_of_list_lookup_2.
+Qed.
+Fixpoint rrun_no_ovf_b (c : list node) (log : logt) (evs : list rcev) : bool :=
+  match evs with
+  | [] => true
+  | e :: r => no_ovf_b (rstep c log e).1 && rrun_no_ovf_b (rstep c log e).1 (rstep c log e).2 r
+  end.
+Lemma rrun_no_ovf_b_spec evs : ∀ c log, rrun_no_ovf_b c log evs = true → rrun_no_ovf c log evs.
+Proof.
+  induction evs as [|e evs IH]; intros c log H; simpl in *; [done|].
+  apply andb_true_iff in H as [H1 H2]. split; [by apply no_ovf_b_spec|by apply IH].
+Qed.
+
+(* non-vacuity: two nodes write, crash, restart and write again *)
+Definition ex_restart_evs : list rcev :=
+  [RStep (CClient 0 (CSet [115] [97] false false)); RStep (CClient 0 (CSet [115] [98] false false));
+   RStep (CClient 1 (CHSet [104] [([102], [118]); ([103], [119])]));
+   RRestart 0; RStep (CClient 0 (CSet [115] [99] false false));
+   RRestart 1; RStep (CClient 1 (CHSet [104] [([102], [120])]))].
+Lemma ex_restart_valid :
+  valid_rrun ex_K (cluster_init 3) [] ex_restart_evs ∧ rrun_no_ovf (cluster_init 3) [] ex_restart_evs.
+Proof.
+  split; [vm_compute; repeat split; done|].
+  apply rrun_no_ovf_b_spec. vm_compute. reflexivity.
+Qed.
+(* the stamps issued by node 1 (key s) and node 2 (key h), in emission order: they keep growing
+   across the restarts *)
+Lemma ex_restart_stamps :
+  map (λ x : nat * list N * rvalue, (x.1.1, st_time (rv_ts x.2))) (rrun (cluster_init 3) [] ex_restart_evs).2
+  = [(0%nat, 1); (0%nat, 2); (1%nat, 2); (0%nat, 4); (1%nat, 4)].
+Proof. vm_compute. reflexivity. Qed.
